@@ -105,4 +105,32 @@ CLAIMS["C20"] = {
             "inputs). The environment-keyed parameter lookup was a genuine defect, repaired (fix: commit).",
 }
 
+CLAIMS["C11"] = {
+    "technique": "shape + affine-arithmetic checks of the FlatBuffers builder code (byte loops, id formulas), straight-line "
+                 "message-sequence extraction per output file, name-occurrence non-interference (`privvals` only under len()), "
+                 "call-time read census of the modulus, schema/stub name agreement",
+    "text": "Decides: every byte vector extracts (v >> 8j) & 255 over reversed(range(BL)) from a value reduced mod the modulus "
+            "(or modulus-1); instance ids are 1..P, witness ids P+1..P+W, free_variable_id P+W+1 and the constraint writer "
+            "maps allocator keys to exactly those ids; circuit.zkif receives header+constraints and no witness message, and "
+            "the functions writing it read the private values only through len(); computation.zkif receives all three; the "
+            "modulus is read at call time everywhere and no consumer reads backend.modulus directly; schema functions exist "
+            "and message tags match the stored tables; messages are size-prefixed.",
+    "note": "Trusted: FlatBuffers builder semantics and the generated stubs. The FlatBuffers wire format itself and the "
+            "satisfaction of the decoded system are not decided.",
+}
+CLAIMS["C12"] = {
+    "technique": "CFG ordering query (flush/close before read-back) with per-writer flush summaries, writer/reader grammar "
+                 "extraction (print() records vs token indices), dominance order of the sub-circuit glue protocol, "
+                 "guard-implication check of the unit-wire bypass",
+    "text": "Decides: every path in prove() to a reader of pysnark_eqs / wires / values passes a flush or close of the "
+            "corresponding writer when some writer leaves records unflushed; every record kind written is handled by the "
+            "splitter with indices within the written fields; pubval writes wire, I/O wire with the same value and the "
+            "linking equation, privval the wire only; Sig coefficients are reduced and term lists concatenated; @subqap "
+            "switches context, copies arguments/results with the original's value in (outer, inner) order and reaches "
+            "vc_glue on every normal path with both blocks declared under the same randomness; a digest mismatch raises; "
+            "only exact unit wires bypass re-allocation in block declarations.",
+    "note": "Two genuine defects found by these rules were repaired (flush before read-back; unit-wire bypass). Not decided: "
+            "satisfaction of the equations (C01), digest collisions, the external binaries.",
+}
+
 NOT_APPLICABLE = {}
